@@ -146,14 +146,15 @@ Proof.
   { set (t1 := set_pos t (pos t + tag_name_len (rest s (pos t)))) in *.
     assert (Ht1 : pos t1 <= L) by (subst t1; st_simpl; lia).
     destruct (eol_spec s t1 Ht1) as (E1 & E2 & E3 & E4 & E5).
+    remember (eol s t1) as u eqn:Hu.
     destruct (str_eqb _ L_endcomment).
     - destruct (depth =? 1).
       + inversion H; subst t' tok. st_simpl. rewrite E5. subst t1. st_simpl.
         exists (sub s (start t) (pos t + tag_name_len (rest s (pos t)) - tag_name_len (rest s (pos t)))).
         replace (pos t + tag_name_len (rest s (pos t)) - tag_name_len (rest s (pos t))) with (pos t) by lia.
-        rewrite sub_slice, slice_length by lia. repeat split; [lia|reflexivity].
-      + apply (Hrec _ _ ltac:(subst t1; st_simpl; lia) E2 E3 E5 H).
-    - destruct (str_eqb _ L_comment); apply (Hrec _ _ ltac:(subst t1; st_simpl; lia) E2 E3 E5 H). }
+        rewrite sub_slice, slice_length by lia. repeat split; try lia; try reflexivity.
+      + apply (Hrec u _ ltac:(subst t1; st_simpl; lia) E2 E3 E5 H).
+    - destruct (str_eqb _ L_comment); apply (Hrec u _ ltac:(subst t1; st_simpl; lia) E2 E3 E5 H). }
   destruct (line_comment (rest s (pos t))) as [m|] eqn:Em; [|discriminate].
   apply line_comment_le in Em. rewrite rest_len in Em.
   pose proof (line_term_le (rest s (pos t + m))) as Hlt. rewrite rest_len in Hlt.
@@ -179,18 +180,17 @@ Proof.
             liquid_tag shorthand s f t2 w0 stmts2 wss2 = Ok x -> lines_post t w0 lo x).
   { intros t2 stmts2 wss2 B1 B2 B3 Hc. eapply IH in Hc; [|exact B1|exact B3].
     unfold lines_post in *. rewrite B2 in Hc. exact Hc. }
-  assert (Hfin : forall u w1 stmts', pos u <= L -> mstart u = mstart t -> rlines lo stmts' (pos u) ->
+  assert (Hfin : forall u w1 stmts' ws, pos u <= L -> mstart u = mstart t -> rlines lo stmts' (pos u) ->
             slice s (pos u - 2) (pos u) = [37; 125]%N ->
-            lines_post t w0 lo (u, MLines (mstart u) (pos u) w0 w1 L_liquid (rev stmts')
-                                     (rev (sub s (pos t) (pos t + nws) :: wss)))).
-  { intros u w1 stmts' B1 B2 B3 B4. unfold lines_post. st_simpl. rewrite B2.
+            lines_post t w0 lo (u, MLines (mstart u) (pos u) w0 w1 L_liquid (rev stmts') ws)).
+  { intros u w1 stmts' ws B1 B2 B3 B4. unfold lines_post. st_simpl. rewrite B2.
     eexists _, _, _. split; [reflexivity|]. split; [|exact B4].
     rewrite <- (app_nil_r (rev stmts')). eapply rlines_lines; [exact B3|]. simpl. lia. }
   assert (Hrl1 : rlines lo stmts (pos t1)) by (eapply rlines_cur; [exact Hrl|lia]).
   destruct (wc_end L_pct_rbrace (rest s (pos t1))) as [[w1 n]|] eqn:E.
-  { inversion H; subst x. clear H.
+  { injection H as <-.
     pose proof (wc_end_len _ _ _ _ E) as Hm. simpl in Hm. rewrite rest_len in Hm.
-    apply Hfin; st_simpl; try lia.
+    refine (Hfin (set_both t1 (pos t1 + n)) w1 stmts _ _ _ _ _); st_simpl; try lia.
     - eapply rlines_cur; [exact Hrl1|lia].
     - apply (wc_end_slice _ _ _ _ E). }
   pose proof (tag_name_len_le (rest s (pos t1))) as Hn. rewrite rest_len in Hn.
@@ -225,8 +225,9 @@ Proof.
         - exact D3.
         - rewrite A0. exact Hrl1. }
       destruct fin as [w1|].
-      + inversion H; subst x. clear H. apply Hfin; try lia; try congruence.
-        apply (D4 w1 eq_refl).
+      + injection H as <-.
+        refine (Hfin t3 w1 (LTag (start t1) b (firstn n (rest s (pos t1))) e :: stmts) _ _ _ _ _);
+          try lia; try congruence; try exact Hrl3; try apply (D4 w1 eq_refl).
       + eapply Hrec; [| | |exact H]; [split; assumption|congruence|exact Hrl3]. }
   destruct (line_comment (rest s (pos t1))) as [m|] eqn:Em.
   { apply line_comment_le in Em. rewrite rest_len in Em.
